@@ -159,7 +159,11 @@ def _work(case):
         else:                      # SHACL output / profile_graph: implementation only (not in the pipeline model)
             i = pipe.impl_other(ts, cfg, kind)
             m = ("n/a", "")
-            corr.append(True)
+            ok = True
+            hook = getattr(spec, "model_other", None)   # a property may bring its own model for a kind (C05: SHACL graph)
+            if hook is not None:
+                m, ok = hook(ts, cfg, kind, i)
+            corr.append(ok)
         impl.append(i)
         model.append(m)
     try:
@@ -168,6 +172,7 @@ def _work(case):
         import traceback
         return {"internal": "oracle crashed: %s %s" % (type(e).__name__, traceback.format_exc()[-600:])}
     out = {"fails": fails, "nitems": nitems, "corr": corr,
+           "hook_kinds": [str(m[1])[:60] for m in model if str(m[0]).endswith("-model")],
            "outcomes": [i[0] if i[0] == "ok" else i[1] for i in impl],
            "nontrivial": any(nontrivial_graph(rn[0], rn[1]) for rn in case["runs"])}
     if fails or not all(corr):
@@ -205,6 +210,7 @@ def run_property(spec, tier, seed, replay=None, quick_vm=24, thorough_vm=120):
     spec_fail, corr_fail, known_hits = [], [], {}
     nitems = 0
     outcomes = {}
+    hook_kinds = {}
     distinct = set()
     for k, (case, res) in enumerate(zip(cases, results)):
         if "internal" in res:
@@ -213,6 +219,8 @@ def run_property(spec, tier, seed, replay=None, quick_vm=24, thorough_vm=120):
         nitems += res["nitems"]
         for o in res["outcomes"]:
             outcomes[o] = outcomes.get(o, 0) + 1
+        for o in res.get("hook_kinds", []):
+            hook_kinds[o] = hook_kinds.get(o, 0) + 1
         if res["nontrivial"]:
             distinct.add(case_key(case))
         unknown = []
@@ -251,6 +259,9 @@ def run_property(spec, tier, seed, replay=None, quick_vm=24, thorough_vm=120):
             ts, cfg = cases[i]["runs"][0][0], cases[i]["runs"][0][1]
             t = pipe.model_table(ts, cfg)
             vcases.append(("pipe_shexc", t, mb.call("pipe_shexc", t)))
+        extra = getattr(spec, "extra_vm_cases", None)   # further entries of the binary to re-evaluate by vm_compute
+        if extra is not None:
+            vcases += extra(cases, mb, rnd, tier)
         mb.close()
         vm_n, mism, log = core.vm_crosscheck(vcases, pid.lower(), per_file=4, timeout=900)
         if mism:
@@ -292,6 +303,7 @@ def run_property(spec, tier, seed, replay=None, quick_vm=24, thorough_vm=120):
         "rule": spec.rule,
         "checked_items": nitems,
         "outcome_distribution": outcomes,
+        "other_model_correspondence": hook_kinds,
         "known_finding_hits": known_hits,
         "corpus_cases_replayed_first": len(corpus),
         "vm_compute_crosschecked": vm_n,
